@@ -69,6 +69,8 @@ def run_scenario(chk, sc, cfgseed, ndims=3, payload="wild", flavour="sched", wor
     stale = (lambda lv, mins, maxs: ({b: [v - 0.5 for v in r] for b, r in mins.items()}, {b: [v + 0.25 for v in r] for b, r in maxs.items()})) \
         if cfgseed % 4 == 1 else None
     reg = gamma.write_plotfile(src, ap, cfg, mm_override=stale)
+    if cfgseed % 5 == 2:
+        gamma.add_stale_files(src, ap, cfg, cfgseed)        # left-overs of an earlier, larger plotfile in the same directory
     before = alpha.tree_digest(src)
     Ain = alpha.abstract(src, reg)
     if alpha.wellformed(Ain):
